@@ -77,7 +77,7 @@ class Env:
                                  repo=repos[repo]).items():
                     object.__setattr__(s, k, v)
 
-        self.PK = PK
+        self.PK, self.VersionedCPV = PK, VersionedCPV
         vers = ["0.9", "1.0", "1.0-r1", "1.1", "2", "2-r1"]
         combos = [("0", "ab", "a", "r0"), ("1", "a", "", "r1"), ("0", "", "", "r0"), ("0", "ab", "ab", "r1"), ("1", "b", "b", "r0")]
         self.table = {}
@@ -95,6 +95,9 @@ class Env:
         # the same version spelled differently, and what the =ver* globs of either spelling tell apart
         for v in ("1.00", "1.0.5", "1.00.5", "1", "1-r0", "1.0-r0", "1.1-r0", "1.5", "10"):
             pk.append(PK("c", "p", v, "0", "ab", "a", "r0"))
+        # a package of another format: none of the optional attributes (slot, use, repo, ...) exists on it
+        pk.append(VersionedCPV("c", "p", "1.0"))
+        pk.append(VersionedCPV("dev-util", "diffball", "2"))
         self.pkgs = pk
         self.strings = ["", "a", "A", "ab", "AB", "aB", "b", "ba", "xab", "Ab", "0", "1"]
         self.lists = [["0"], ["1"], ["0", "1"], [], ["a"]]
@@ -124,6 +127,9 @@ class Env:
         R, V, P, B = self.restricts, self.values, self.packages, self.boolean
         kw = dict(disable_inst_caching=True) if fresh else {}
         fam, k, a, b, n, m, st = (d[x] for x in ("fam", "k", "a", "b", "n", "m", "st"))
+        if fam == "vm" and k == "cvm":
+            cp = self.VersionedCPV(f"c/p-{b}")
+            return R.VersionMatch(a, cp.version, cp.revision, negate=n, **kw)
         if fam == "vm":
             ver, rev = _verrev(b)
             return (R._VersionMatch if k == "vm" else R.VersionMatch)(a, ver, rev, negate=n, **kw)
@@ -286,7 +292,7 @@ def cache_events(env, x, y, ox, oy, eqs, tid0):
 
 # ---- random descriptions (code -> spec) ----
 POOL = dict(
-    vm=dict(k=["vm", "pvm"], a=["<", "<=", "=", ">=", ">", "~"], b=["0.9", "1.0", "1.0-r1", "1.00", "2", "2-r1", "1.1"], n=[False, True], m=[False], st=[""]),
+    vm=dict(k=["vm", "pvm", "cvm"], a=["<", "<=", "=", ">=", ">", "~"], b=["0.9", "1.0", "1.0-r1", "1.00", "2", "2-r1", "1.1"], n=[False, True], m=[False], st=[""]),
     str=dict(k=["exact", "glob", "regex"], a=["a", "A", "ab", "AB", "b", "aB"], b=["", "alt"], n=[False, True], m=[False, True], st=[""]),
     atomver=dict(k=["atom"], a=["=", "~", ">=", ">", "<=", "<", "=*"], b=["1.0", "1.00", "1.0-r0", "1", "1-r0", "1.1", "1.10", "1.1-r0", "01", "1.0.5", "1.00.5"],
                  n=[False, True], m=[False], st=[""]),
@@ -345,6 +351,9 @@ def mutate(r_, d):
 
 def run(ck):
     use_repo()
+    import logging
+
+    logging.getLogger("pkgcore").setLevel(logging.CRITICAL + 1)  # ignore_missing=False logs every missing attribute
     env = Env()
     ck.rule = ("ordered pairs of independently constructed restrictions inside families of equal-looking variants (TLC-enumerated "
                "descriptions + seeded random descriptions with one-field mutations); non-trivial = distinct pair of two different "
